@@ -65,8 +65,13 @@ FRAG_OWNER = {
 
 
 class Gen:
-    def __init__(self, unit, false_twin=False, auto_fns=None):
+    def __init__(self, unit, false_twin=False, auto_fns=None, stub_fns=None):
         self.unit = unit
+        # functions under contract whose body can no longer be brought into the view (a rewrite rule went stale, a loop
+        # disappeared, Verus rejects a new construct): they are emitted as contract-only stubs, their own obligations become
+        # undecided, every OTHER function is still verified against their contract
+        self.stub_fns = set(stub_fns or [])
+        self.stub_reasons = {}
         # helper functions that the code under contract calls but that no template mentions (e.g. introduced by a change):
         # {(file, name): props} -- emitted verbatim WITHOUT a contract, so callers learn nothing from them
         self.auto_fns = auto_fns or {}
@@ -423,6 +428,78 @@ class Gen:
                             f'the contract was written for `{rs.norm_ws(orig)}` (contract needs review)')
         # (signature + contract are emitted by emit_copy below, after the body is prepared)
         # body
+        stubbed = fid in self.stub_fns
+        body_lines = []
+        heads = []
+        if not stubbed:
+            try:
+                body_lines, heads = self._prepare_body(it, kv, fid, fn, loops, hints, local_rw, path)
+            except Undecided as e:
+                if foreign:
+                    body_lines, heads = [], []
+                else:
+                    stubbed = True
+                    self.stub_reasons[fid] = str(e)
+        if stubbed:
+            fn['stubbed'] = True
+            fn['stub_reason'] = self.stub_reasons.get(fid, 'Verus rejects the body (see undecided)')
+            body_lines = [('{ unimplemented!() }', ('tmpl', path, 0))]
+
+        def emit_copy(twin):
+            if twin or foreign:
+                self._no_labels = True
+            if foreign:
+                self.emit('#[verifier::external_body] // verified in its owner unit; used here by contract only', (kind, path, 0))
+            elif stubbed:
+                self.emit('#[verifier::external_body] // BODY OUT OF REACH after a change: contract only, own obligations undecided', (kind, path, 0))
+            first = len(self.lines)
+            in_ens = False
+            saw_ens = False
+            renamed = False
+            for text, ln in sig_lines:
+                if twin:
+                    if not renamed and re.search(r'\bfn [A-Za-z_][A-Za-z0-9_]*', text):
+                        text = re.sub(r'\bfn ([A-Za-z_][A-Za-z0-9_]*)', r'fn \1__twin', text, count=1)
+                        renamed = True
+                    st = text.strip()
+                    if re.match(r'^ensures\b', st):
+                        in_ens, saw_ens = True, True
+                        self.emit('        ensures false,', (kind, path, ln))
+                        continue
+                    if in_ens:
+                        if re.match(r'^(decreases|requires|recommends)\b', st):
+                            in_ens = False
+                        else:
+                            continue
+                self.feed(text, (kind, path, ln))
+            self.close_label()
+            if twin and not saw_ens:
+                self._insert_false_from(first)
+            for t, o in body_lines:
+                if o[0] == 'repo':
+                    self.close_label()
+                    self.emit(t, o)
+                else:
+                    self.feed(t, o)
+            self.close_label()
+            self._no_labels = False
+
+        emit_copy(False)
+        fn['gen_end'] = len(self.lines)
+        fn['loops'] = len(heads)
+        if foreign:
+            fn['kind'] = 'foreign'
+        self.fns.append(fn)
+        if self.false_twin and kv.get('twin', 'yes') != 'no' and not foreign and not stubbed:
+            tw = dict(fn, id=fn['id'] + '#twin', kind='twin', gen_start=len(self.lines) + 1)
+            self._cur_fn = tw
+            emit_copy(True)
+            tw['gen_end'] = len(self.lines)
+            self.fns.append(tw)
+        self._cur_fn = None
+        return i
+
+    def _prepare_body(self, it, kv, fid, fn, loops, hints, local_rw, path):
         body = it.body
         body, hits = rules.apply(body, self, kv.get('rules', ''), fn_id=fid, local=local_rw)
         fn['rule_hits'] = hits
@@ -499,57 +576,7 @@ class Gen:
                     raise Undecided(f'{fid}: hint anchor /{rx}/: block does not close')
                 k = q + 1
             body_lines[k:k] = [(t, ('tmpl', path, ln)) for t, ln in hl]
-        def emit_copy(twin):
-            if twin or foreign:
-                self._no_labels = True
-            if foreign:
-                self.emit('#[verifier::external_body] // verified in its owner unit; used here by contract only', (kind, path, 0))
-            first = len(self.lines)
-            in_ens = False
-            saw_ens = False
-            renamed = False
-            for text, ln in sig_lines:
-                if twin:
-                    if not renamed and re.search(r'\bfn [A-Za-z_][A-Za-z0-9_]*', text):
-                        text = re.sub(r'\bfn ([A-Za-z_][A-Za-z0-9_]*)', r'fn \1__twin', text, count=1)
-                        renamed = True
-                    st = text.strip()
-                    if re.match(r'^ensures\b', st):
-                        in_ens, saw_ens = True, True
-                        self.emit('        ensures false,', (kind, path, ln))
-                        continue
-                    if in_ens:
-                        if re.match(r'^(decreases|requires|recommends)\b', st):
-                            in_ens = False
-                        else:
-                            continue
-                self.feed(text, (kind, path, ln))
-            self.close_label()
-            if twin and not saw_ens:
-                self._insert_false_from(first)
-            for t, o in body_lines:
-                if o[0] == 'repo':
-                    self.close_label()
-                    self.emit(t, o)
-                else:
-                    self.feed(t, o)
-            self.close_label()
-            self._no_labels = False
-
-        emit_copy(False)
-        fn['gen_end'] = len(self.lines)
-        fn['loops'] = len(heads)
-        if foreign:
-            fn['kind'] = 'foreign'
-        self.fns.append(fn)
-        if self.false_twin and kv.get('twin', 'yes') != 'no' and not foreign:
-            tw = dict(fn, id=fn['id'] + '#twin', kind='twin', gen_start=len(self.lines) + 1)
-            self._cur_fn = tw
-            emit_copy(True)
-            tw['gen_end'] = len(self.lines)
-            self.fns.append(tw)
-        self._cur_fn = None
-        return i
+        return body_lines, heads
 
     def _insert_false_from(self, fstart):
         k = len(self.lines)
@@ -581,6 +608,11 @@ class Gen:
         text, hits = rules.apply(it.text, self, '', fn_id=fn['id'])
         text = re.sub(r'^(\s*)pub(\([a-z]+\))?\s+', r'\1', text, count=1)
         fn['rule_hits'] = hits
+        if fn['id'] in self.stub_fns:
+            sig, _h = rules.apply(it.signature, self, '', fn_id=fn['id'])
+            sig = re.sub(r'^(\s*)pub(\([a-z]+\))?\s+', r'\1', sig, count=1)
+            text = '#[verifier::external_body] // BODY OUT OF REACH: ' + self.stub_reasons.get(fn['id'], '')[:120].replace('\n', ' ') + '\n' + sig + ' { unimplemented!() }'
+            fn['stubbed'] = True
         base = it.line_start
         for k, l in enumerate(text.split('\n')):
             self.emit(l, ('repo', file, base + k))
